@@ -2,6 +2,7 @@ package main
 
 import (
 	"bufio"
+	"context"
 	"encoding/json"
 	"fmt"
 	"math/rand"
@@ -12,10 +13,12 @@ import (
 	"sort"
 	"strings"
 	"syscall"
+	"time"
 
 	evalfilter "github.com/skx/evalfilter/v2"
 	"github.com/skx/evalfilter/v2/code"
 	"github.com/skx/evalfilter/v2/object"
+	"github.com/skx/evalfilter/v2/vm"
 
 	"verif/internal/eng"
 	"verif/internal/ev"
@@ -252,6 +255,34 @@ func c10Worker(args []string) {
 		if evr, err := eng.New(oscripts[rr.Intn(len(oscripts))], eng.Options{Budget: 100000, TraceCap: 1 << 20}); err == nil {
 			evr.Exec(obj)
 			rep.Calls++
+		}
+	}
+	// scripts stopped by their context (expired before the run, cancelled in mid-run, inside
+	// a user function): an error comes back, and that is all that happens
+	marker("CALL/stopped-by-context/0")
+	for i, script := range []string{`while (true) { x = 1; }`, `function spin() { while (true) { y = 2; } } spin(); return 1;`, `foreach i in 1..100000 { z = i; } return z;`, `print("a"); while (true) { printf("%d", 1); }`} {
+		for variant := 0; variant < 3; variant++ {
+			ctx, cancel := context.WithCancel(context.Background())
+			switch variant {
+			case 0:
+				cancel() // done before the run starts
+			case 1:
+				ctx, cancel = context.WithTimeout(context.Background(), time.Millisecond)
+			}
+			if evr, err := eng.New(script, eng.Options{Ctx: ctx, Budget: 2000000, NoOptimize: (i+variant)%2 == 0}); err == nil {
+				if variant == 2 {
+					evr.OnStep = func(m *vm.VM, ip int, op code.Opcode) error {
+						if evr.Steps() == 300 {
+							cancel()
+						}
+						return nil
+					}
+				}
+				evr.Exec(map[string]interface{}{"Path": canary})
+				evr.RunBool(map[string]interface{}{"Path": canary})
+				rep.Calls++
+			}
+			cancel()
 		}
 	}
 	// standard output that cannot be written to (a full disk): output is lost, and nothing
